@@ -137,6 +137,75 @@ Theorem C19_removal_frame : forall st ca p st', remove_parent st ca p = Some st'
   /\ (forall ca', view_repo st' ca' = view_repo st ca') /\ (forall ca' c, view_child st' ca' c = view_child st ca' c).
 Proof. exact removal_frame. Qed.
 
+(** The issues views. The view of one CA lists exactly the failures of its status; its report is empty iff there
+    is no repository issue AND no parent issue; the view over all CAs lists a CA iff its last repository exchange
+    failed or the last exchange with at least one parent failed, and shows for it what the view of that CA shows;
+    the text reports say "no issues found" exactly when there is no failure. *)
+Theorem C19_issues_list_exactly_failures : forall s,
+  (forall e, i_repo (issues_of s) = Some e <-> r_last (s_repo s) = Some (XFail e))
+  /\ (forall p e, In (p, e) (i_parents (issues_of s)) <-> exists x, In (p, x) (s_parents s) /\ p_last x = Some (XFail e)).
+Proof. exact issues_list_exactly_failures. Qed.
+
+Theorem C19_issues_empty_iff : forall i, issues_empty i = true <-> i_repo i = None /\ i_parents i = [].
+Proof. exact issues_empty_iff. Qed.
+
+Theorem C19_issues_of_empty_iff : forall s, issues_empty (issues_of s) = true <-> ~ repo_failed s /\ ~ parent_failed s.
+Proof. exact issues_of_empty_iff. Qed.
+
+Theorem C19_bulk_lists_exactly_failing : forall l ca,
+  In ca (map fst (bulk_issues l)) <-> exists s, In (ca, s) l /\ has_failure s.
+Proof. exact bulk_lists_exactly_failing. Qed.
+
+Theorem C19_bulk_agrees_with_single : forall l ca i,
+  In (ca, i) (bulk_issues l) <-> exists s, In (ca, s) l /\ i = issues_of s /\ issues_empty i = false.
+Proof. exact bulk_agrees_with_single. Qed.
+
+(** with [||] instead of [&&] in the emptiness test a CA with only one kind of failure is left out *)
+Theorem C19_bulk_lists_exactly_failing_or_refuted : ~ bulk_lists_exactly_failing_with issues_empty_or.
+Proof. exact bulk_lists_exactly_failing_or_refuted. Qed.
+
+Theorem C19_text_no_issues_iff : forall s, says_no_issues (issues_of s) = true <-> ~ has_failure s.
+Proof. exact text_no_issues_iff. Qed.
+
+Theorem C19_bulk_text_no_issues_iff : forall l,
+  bulk_says_no_issues (bulk_issues l) = true <-> forall ca s, In (ca, s) l -> ~ has_failure s.
+Proof. exact bulk_text_no_issues_iff. Qed.
+
+(** On a state of the status store, for the CAs that exist. *)
+Theorem C19_bulk_view_lists_exactly_failing : forall st cas ca,
+  In ca (map fst (bulk_view st cas)) <-> In ca cas /\ has_failure (ca_view st ca).
+Proof. exact bulk_view_lists_exactly_failing. Qed.
+
+Theorem C19_bulk_view_agrees_with_single : forall st cas ca i,
+  In (ca, i) (bulk_view st cas) <-> In ca cas /\ i = issues_view st ca /\ issues_empty i = false.
+Proof. exact bulk_view_agrees_with_single. Qed.
+
+(** In histories: a CA whose most recent repository exchange (or most recent exchange with some parent) failed is
+    listed in the view over all CAs, with that error in the view of the CA, whatever else happened since. *)
+Theorem C19_bulk_shows_last_failed_repo : forall os1 os2 st1 st2 st3 ca w lr dr e cas,
+  run init os1 = Some st1 ->
+  step st1 (ORepoSync ca w lr dr) = Some st2 ->
+  run st2 os2 = Some st3 ->
+  forallb (fun o => negb (touches_repo ca o)) os2 = true ->
+  good ca ->
+  snd (repo_sync st1 ca w lr dr) = XFail e ->
+  In ca cas ->
+  In ca (map fst (bulk_view st3 cas)) /\ i_repo (issues_view st3 ca) = Some e
+  /\ says_no_issues (issues_view st3 ca) = false.
+Proof. exact bulk_shows_last_failed_repo. Qed.
+
+Theorem C19_bulk_shows_last_failed_parent : forall os1 os2 st1 st2 st3 ca p pc ch r e cas,
+  run init os1 = Some st1 ->
+  step st1 (OParentSync ca p pc ch r) = Some st2 ->
+  run st2 os2 = Some st3 ->
+  forallb (fun o => negb (touches_parent ca p o)) os2 = true ->
+  good ca -> good p ->
+  exchange_result r = Some (XFail e) ->
+  In ca cas ->
+  In ca (map fst (bulk_view st3 cas)) /\ In (p, e) (i_parents (issues_view st3 ca))
+  /\ says_no_issues (issues_view st3 ca) = false.
+Proof. exact bulk_shows_last_failed_parent. Qed.
+
 Print Assumptions C19_failure_iff_last_failed.
 Print Assumptions C19_parent_status_is_last_exchange.
 Print Assumptions C19_api_result_is_status_refuted.
@@ -157,3 +226,15 @@ Print Assumptions C19_restart_preserves_in_histories.
 Print Assumptions C19_restart_loses_slash_handles_refuted.
 Print Assumptions C19_removal_removes.
 Print Assumptions C19_removal_frame.
+Print Assumptions C19_issues_list_exactly_failures.
+Print Assumptions C19_issues_empty_iff.
+Print Assumptions C19_issues_of_empty_iff.
+Print Assumptions C19_bulk_lists_exactly_failing.
+Print Assumptions C19_bulk_agrees_with_single.
+Print Assumptions C19_bulk_lists_exactly_failing_or_refuted.
+Print Assumptions C19_text_no_issues_iff.
+Print Assumptions C19_bulk_text_no_issues_iff.
+Print Assumptions C19_bulk_view_lists_exactly_failing.
+Print Assumptions C19_bulk_view_agrees_with_single.
+Print Assumptions C19_bulk_shows_last_failed_repo.
+Print Assumptions C19_bulk_shows_last_failed_parent.
